@@ -196,6 +196,14 @@ def hint_section_mutations(rng, p, sig):
         yy = bytearray(y); yy[omega + 1] = counts[0] - 1 if counts[1] >= counts[0] else yy[omega + 1]
         if yy != y:
             emit('count decreases', yy)
+    for j in range(1, k):
+        if counts[j - 1] > 0:
+            yy = bytearray(y); yy[omega + j] = 0
+            emit(f'count of polynomial {j} reset to zero after a non-zero count', yy)
+            break
+    if k >= 2 and counts[k - 2] > 0:
+        yy = bytearray(y); yy[omega + k - 1] = 0
+        emit('last count reset to zero after a non-zero count', yy)
     yy = bytearray(y); yy[omega + k - 1] = omega + 1
     emit('count omega+1', yy)
     yy = bytearray(y); yy[omega + k - 1] = 255
@@ -341,7 +349,23 @@ def rare_sign_cases(s):
         return []
     xi = bytes.fromhex(d['xi'])
     pk, sk = keypair(s, xi)
-    return [(tag, xi, sk, pk, bytes.fromhex(m), bytes.fromhex(d['ctx']), bytes.fromhex(d['rnd'])) for tag, m in d['messages'].items()]
+    out = [(tag, xi, sk, pk, bytes.fromhex(m), bytes.fromhex(d['ctx']), bytes.fromhex(d['rnd'])) for tag, m in d['messages'].items()]
+    # honest signatures with a coefficient of w - c s2 + c t0 on the wrap-around corner q - gamma2 of Decompose
+    mc = rare_inputs().get('makehint_corner')
+    if mc and s in mc['cases']:
+        xi2 = bytes.fromhex(mc['xi'])
+        pk2, sk2 = keypair(s, xi2)
+        out.append(('makehint corner q-gamma2', xi2, sk2, pk2, bytes.fromhex(mc['cases'][s]['msg']), bytes.fromhex(mc['ctx']), bytes.fromhex(mc['cases'][s]['rnd'])))
+    return out
+
+
+def extremal_t0_cases(s):
+    """ML-DSA-44: a private key deserialisation accepts but key generation never returns (t0 at the ends of its range) and messages for
+    which Algorithm 7 rejects an attempt on ||c t0|| >= gamma2: (tag, sk, msg, ctx, rnd)"""
+    d = rare_inputs().get('extremal_t0_' + s)
+    if not d:
+        return []
+    return [(tag, bytes.fromhex(d['sk']), bytes.fromhex(c['msg']), bytes.fromhex(d['ctx']), bytes.fromhex(d['rnd'])) for tag, c in d['cases'].items()]
 
 
 def rare_keygen_seeds(s):
